@@ -131,6 +131,9 @@ EXPECT = {
         "memory_info": ("pmem", [("rss", "proc_basic_info", "rss_kb", 1024), ("vms", "proc_basic_info", "vms_kb", 1024)]),
         "uids": ("puids", [("real", "proc_cred", "ruid", 1), ("effective", "proc_cred", "euid", 1), ("saved", "proc_cred", "suid", 1)]),
         "gids": ("pgids", [("real", "proc_cred", "rgid", 1), ("effective", "proc_cred", "egid", 1), ("saved", "proc_cred", "sgid", 1)]),
+        # /proc/<pid>/cred refused (EACCES): real / effective ids come from the psinfo record
+        "denied:uids": ("puids", [("real", "proc_basic_info", "uid", 1), ("effective", "proc_basic_info", "euid", 1)]),
+        "denied:gids": ("pgids", [("real", "proc_basic_info", "gid", 1), ("effective", "proc_basic_info", "egid", 1)]),
         "cpu_times": ("pcputimes", [("user", "proc_cpu_times", "utime", 1), ("system", "proc_cpu_times", "stime", 1),
                                     ("children_user", "proc_cpu_times", "ch_utime", 1),
                                     ("children_system", "proc_cpu_times", "ch_stime", 1)]),
